@@ -44,6 +44,9 @@ func CompareKey(st atree.SlabStorage, v atree.Value, s atree.Storable) (bool, er
 type TableDigesterBuilder struct {
 	L  uint
 	Fn func(key TV, level uint) uint64
+	// CallHip makes the builder consult the hash-input provider like the library's own builder does
+	// (its result is not used): a failing provider then fails the request on collision-table maps too.
+	CallHip bool
 }
 
 var _ atree.DigesterBuilder = &TableDigesterBuilder{}
@@ -54,6 +57,11 @@ func (b *TableDigesterBuilder) Digest(hip atree.HashInputProvider, v atree.Value
 	tv, ok := v.(TV)
 	if !ok {
 		return nil, fmt.Errorf("digest: key is %T", v)
+	}
+	if b.CallHip && hip != nil {
+		if _, err := hip(v, nil); err != nil {
+			return nil, err
+		}
 	}
 	d := &tableDigester{}
 	for l := uint(0); l < b.L; l++ {
